@@ -57,6 +57,11 @@ func c14Menu(initial int) []c14Doc {
 		{"new-type", "type P1 { x: Int }\n"},
 		{"extend-block", "extend type " + q + " { px: Int }\n"},
 		{"directive-def-and-use", "directive @pd on OBJECT | FIELD_DEFINITION\ntype P2 @pd { z: Int @pd }\n"},
+		{"two-extend-blocks", "extend type " + q + " { px1: Int }\nextend type " + q + " { px2: Int }\n"},
+	}
+	if initial != 2 {
+		// root operation types arriving with the failing document (the implicit schema is updated in place)
+		prefixes = append(prefixes, struct{ name, sdl string }{"new-root-types", "type Mutation { pm: Int }\ntype Subscription { ps: Int }\n"})
 	}
 	if initial == 0 {
 		prefixes = append(prefixes, struct{ name, sdl string }{"schema-block", "schema { query: Alt }\ntype Alt { alt: Int }\n"})
@@ -69,6 +74,8 @@ func c14Menu(initial int) []c14Doc {
 		{"undefined-reference", "type Bad1 { y: Zq7 }\n"},
 		{"duplicate-type", "type " + q + " { dup: Int }\n"},
 		{"extend-missing-type", "extend type Nope { x: Int }\n"},
+		{"extend-kind-mismatch", "extend interface " + q + " { x: Int }\n"},
+		{"extend-duplicate-member", "extend type " + q + " { " + map[bool]string{true: "x", false: "i"}[initial == 2] + ": Int }\n"},
 		{"empty-type", "type Bad2 {}\n"},
 		{"reserved-name", "type __Bad3 { a: Int }\n"},
 		{"undefined-directive", "type Bad4 @zq7 { a: Int }\n"},
@@ -190,8 +197,8 @@ func runC14(c *core.Ctx) {
 				return
 			}
 			for i := range menu {
-				// quick: histories of length 3 only start with the first 12 menu entries (all valid ones and the first failure group)
-				if !c.Thorough() && len(seq) == 2 && seq[0] >= 12 {
+				// quick: histories of length 3 only after two of the first 6 menu entries (the valid documents and the first failures)
+				if !c.Thorough() && len(seq) == 2 && (seq[0] >= 6 || seq[1] >= 6) {
 					continue
 				}
 				seq = append(seq, i)
@@ -239,7 +246,7 @@ func runC14(c *core.Ctx) {
 			}
 		}
 	}
-	c.R.Bound = fmt.Sprintf("all load histories of length <= %d (quick: length 3 restricted to histories starting in the first 12 menu entries); all reader-fault offsets", maxLen)
+	c.R.Bound = fmt.Sprintf("all load histories of length <= %d (quick: length 3 only after two of the first 6 menu entries); all reader-fault offsets", maxLen)
 	if !completed {
 		c.Cap("deadline reached")
 	}
